@@ -71,33 +71,68 @@ func c11r1(c *an.Ctx) {
 	c.Check(okSize, "encodedStringSize | 1 + varintSize(len) + len", c.P.Pos(ess.Pos()), "", "the encoded size of a string field is not tag + length prefix + bytes")
 
 	// decoder: tags compared, varints threaded, slices at the announced lengths
-	tagsOf := func(fn *ssa.Function) []int64 {
-		type tg struct {
-			in ssa.Instruction
-			k  int64
+	// tag expectations along the execution of a decoder function: direct comparisons of buf[0] with a
+	// constant, or calls to a helper of the package that compares buf[0] with one of its parameters.
+	type tagEv struct {
+		in    ssa.Instruction
+		k     int64
+		param int // >= 0: compared with that parameter
+	}
+	var tagEvents func(fn *ssa.Function, depth int) []tagEv
+	tagEvents = func(fn *ssa.Function, depth int) []tagEv {
+		var ts []tagEv
+		if depth > 2 {
+			return nil
 		}
-		var ts []tg
 		an.Instrs(fn, func(in ssa.Instruction) {
-			b, ok := in.(*ssa.BinOp)
-			if !ok || (b.Op != token.NEQ && b.Op != token.EQL) {
-				return
-			}
-			k, isC := an.ConstInt(b.Y)
-			if !isC {
-				return
-			}
-			if ld, isLd := b.X.(*ssa.UnOp); isLd {
-				if ia, isIA := ld.X.(*ssa.IndexAddr); isIA {
-					if z, isZ := an.ConstInt(ia.Index); isZ && z == 0 {
-						ts = append(ts, tg{in, k})
+			switch x := in.(type) {
+			case *ssa.BinOp:
+				if x.Op != token.NEQ && x.Op != token.EQL {
+					return
+				}
+				ld, isLd := x.X.(*ssa.UnOp)
+				if !isLd {
+					return
+				}
+				ia, isIA := ld.X.(*ssa.IndexAddr)
+				if !isIA {
+					return
+				}
+				if z, isZ := an.ConstInt(ia.Index); !isZ || z != 0 {
+					return
+				}
+				if k, isC := an.ConstInt(x.Y); isC {
+					ts = append(ts, tagEv{in, k, -1})
+					return
+				}
+				for i, p := range fn.Params {
+					if an.Resolve(x.Y) == ssa.Value(p) {
+						ts = append(ts, tagEv{in, 0, i})
+					}
+				}
+			case *ssa.Call:
+				callee := x.Common().StaticCallee()
+				if callee == nil || callee == fn || len(callee.Blocks) == 0 || c.P.PkgOfFunc(callee) != c.P.PkgOfFunc(fn) {
+					return
+				}
+				for _, ev := range tagEvents(callee, depth+1) {
+					if ev.param >= 0 && ev.param < len(x.Common().Args) {
+						if k, isC := an.ConstInt(x.Common().Args[ev.param]); isC {
+							ts = append(ts, tagEv{in, k, -1})
+						}
 					}
 				}
 			}
 		})
-		sort.Slice(ts, func(i, j int) bool { return an.InstrDominates(ts[i].in, ts[j].in) })
+		sort.SliceStable(ts, func(i, j int) bool { return ts[i].in != ts[j].in && an.InstrDominates(ts[i].in, ts[j].in) })
+		return ts
+	}
+	tagsOf := func(fn *ssa.Function) []int64 {
 		var out []int64
-		for _, t := range ts {
-			out = append(out, t.k)
+		for _, ev := range tagEvents(fn, 0) {
+			if ev.param < 0 {
+				out = append(out, ev.k)
+			}
 		}
 		return out
 	}
@@ -107,7 +142,18 @@ func c11r1(c *an.Ctx) {
 	c.Check(len(t1) == 1 && t1[0] == 10, "readEntry | expects tag 0x0a", c.P.Pos(re.Pos()), fmt.Sprint(t1), fmt.Sprintf("readEntry compares the first byte with %v, the encoder writes 10", t1))
 	c.Check(len(t2) == 2 && t2[0] == 10 && t2[1] == 18, "readKeyValue | expects tag 0x0a then tag 0x12", c.P.Pos(rkv.Pos()), fmt.Sprint(t2), fmt.Sprintf("readKeyValue compares tags %v, the encoder writes 10 then 18", t2))
 	// every slice at a decoded length is guarded by length <= len(buf) (the compiler proves the rest)
-	for _, fn := range []*ssa.Function{re, rkv} {
+	decFns := []*ssa.Function{re, rkv}
+	for _, root := range []*ssa.Function{re, rkv} {
+		an.Instrs(root, func(in ssa.Instruction) {
+			if call, ok := in.(*ssa.Call); ok {
+				if callee := call.Common().StaticCallee(); callee != nil && len(callee.Blocks) > 0 && c.P.PkgOfFunc(callee) == c.P.PkgOfFunc(root) && callee != re && callee != rkv {
+					decFns = append(decFns, callee)
+				}
+			}
+		})
+	}
+	nSlAll, nRVAll := 0, 0
+	for _, fn := range decFns {
 		nSl := 0
 		an.Instrs(fn, func(in ssa.Instruction) {
 			sl, ok := in.(*ssa.Slice)
@@ -139,10 +185,11 @@ func c11r1(c *an.Ctx) {
 			}
 			c.Check(guarded, an.ShortFunc(fn)+" | slice at a decoded length is behind length <= len(buf)", c.At(in), "", "peer-controlled length is used to slice without being compared with the bytes available")
 		})
-		c.Floor("length-bounded slices in "+fn.Name(), 1, nSl)
-		nRV := len(an.CallsTo(fn, false, readVarint))
-		c.Check(nRV >= 1, an.ShortFunc(fn)+" | lengths are varints", c.P.Pos(fn.Pos()), "", "no ReadVarint call")
+		nSlAll += nSl
+		nRVAll += len(an.CallsTo(fn, false, readVarint))
 	}
+	c.Floor("length-bounded slices in the metadata decoder", 1, nSlAll)
+	c.Check(nRVAll >= 3, "metadata decoder | entry, key and value lengths are varints", c.P.Pos(re.Pos()), fmt.Sprint(nRVAll), fmt.Sprintf("only %d ReadVarint calls in the metadata decoder", nRVAll))
 	// readKeyValue rejects trailing bytes; readEntry passes exactly buf[:length]
 	okTrail := false
 	an.Instrs(rkv, func(in ssa.Instruction) {
